@@ -127,3 +127,60 @@ def observe(units, files, where, unit_order):
         obs_units.sort(key=lambda o: o["name"])
         refs.sort(key=lambda f: (f["unit"], f["cls"], f["id"]))
         return {"units": obs_units, "refs": refs}, log, problems
+
+
+def html_refs(units, files):
+    """Full FORD run (HTML output).  Returns the references of the program unit as its page shows
+    them: [{"unit","cls","id","ent"}], or an error string.  A reference counts as resolved when
+    the declared type / interface / parent type is rendered as a link; the entity is recovered
+    from the linked page (entity names must be unique in the project for this)."""
+    import re
+    prog = next((u for u in units if u["unit"] == "program"), None)
+    if prog is None:
+        return []
+    owners = {}
+    for u in units:
+        for d in u["decls"]:
+            owners.setdefault((d["kind"], d["name"].lower()), []).append(u["name"].lower())
+    if any(len(v) > 1 for v in owners.values()):
+        return []
+    with F.Work(files) as w:
+        data, out, err = F.full_run_inprocess(w.root, {"display": ["public", "private", "protected"]})
+        if err:
+            return "full run failed: " + err
+        page = w.root / "doc" / "program" / (prog["name"].lower() + ".html")
+        if not page.exists():
+            return "no page for the program"
+        text = page.read_text()
+    refs = []
+
+    def ent_of(cell, kind, dirname):
+        m = re.search(r"<a href='([^']*)'>([^<]*)</a>", cell)
+        if not m:
+            return None
+        mm = re.fullmatch(r"\.\./%s/([^/]+)\.html" % dirname, m.group(1))
+        if not mm:
+            return ("?", m.group(1))
+        name = mm.group(1).lower()
+        mods = owners.get((kind, name))
+        return (mods[0], name) if mods else ("?", name)
+
+    for d in prog["decls"]:
+        r = d.get("ref")
+        if not r:
+            continue
+        if r["what"] in ("type", "procptr"):
+            m = re.search(r'id="variable-%s"></span>(.*?)</td>' % re.escape(d["name"].lower()), text, flags=re.S)
+            if not m:
+                return f"variable {d['name']} not on the program page"
+            kind, dirname, cls = ("type", "type", "CType") if r["what"] == "type" else ("abs", "interface", "CAbs")
+            refs.append({"unit": prog["name"].lower(), "cls": cls, "id": r["id"].lower(),
+                         "ent": ent_of(m.group(1), kind, dirname)})
+        else:
+            m = re.search(r"type, extends\((.*?)\)&nbsp;::&nbsp;\s*<a href='[^']*'>%s</a>" % re.escape(d["name"]),
+                          text, flags=re.S)
+            if not m:
+                return f"type {d['name']} not on the program page"
+            refs.append({"unit": prog["name"].lower(), "cls": "CType", "id": r["id"].lower(),
+                         "ent": ent_of(m.group(1), "type", "type")})
+    return refs
